@@ -55,6 +55,9 @@ def san_closure(d, s):
             return "|mut s: String| { s.push('!'); s }"
         if fn == "take2":
             return "|s: String| s.chars().take(2).collect::<String>()"
+    if fam == "any" and d.get("ty") == "Point":
+        if fn == "rev":
+            return "|p: Point| Point(p.1, p.0)"
     if fam == "any":
         if fn == "sort":
             return "|mut v| { v.sort(); v }"
@@ -102,6 +105,9 @@ def pred_closure(d, r):
             return "|s| s.contains('a')"
         if fn == "ascii":
             return "|s| s.is_ascii()"
+    if fam == "any" and d.get("ty") == "Point":
+        if fn == "sorted":
+            return "|p| p.0 <= p.1"
     if fam == "any":
         if fn == "non_empty":
             return "|v| !v.is_empty()"
@@ -254,6 +260,8 @@ def default_src(d):
         return val_src(d, v)
     if d["fam"] == "string":
         return rust_str(v) + ".to_string()" if False else rust_str(v)
+    if d["fam"] == "any" and d.get("ty") == "Point":
+        return "Point(%d, %d)" % (v[0], v[1])
     if d["fam"] == "any":
         return "vec![%s]" % ", ".join(str(x) for x in v)
     raise KeyError(d["fam"])
@@ -278,10 +286,24 @@ def variants(d):
     return [VARIANT[r["k"]] for r in d["val"]]
 
 
+POINT_ITEMS = """#[derive(Debug, Clone, Copy, PartialEq, Eq, PartialOrd, Ord, Hash, Default, serde::Serialize, serde::Deserialize)]
+pub struct Point(pub i32, pub i32);
+impl ::core::fmt::Display for Point { fn fmt(&self, f: &mut ::core::fmt::Formatter<'_>) -> ::core::fmt::Result { f.pad(&format!("{},{}", self.0, self.1)) } }
+impl ::core::str::FromStr for Point { type Err = String; fn from_str(s: &str) -> Result<Self, String> {
+    let mut it = s.split(','); let a = it.next().ok_or("x")?.parse::<i32>().map_err(|e| e.to_string())?;
+    let b = it.next().ok_or("y")?.parse::<i32>().map_err(|e| e.to_string())?; if it.next().is_some() { return Err("extra".into()); } Ok(Point(a, b)) } }
+impl Enc for Point { fn enc(&self) -> Value { json!([self.0.to_string(), self.1.to_string()]) } }
+impl Dec for Point { fn dec(v: &Value) -> Self { let a = v.as_array().unwrap(); Point(<i32 as Dec>::dec(&a[0]), <i32 as Dec>::dec(&a[1])) } }
+"""
+
+
 def render_decl_only(d):
     """items + the #[nutype] declaration itself (no driver)."""
     if d.get("decl_override"):
         return d["decl_override"]
+    if d.get("ty") == "Point":
+        items, attrs = render_attrs(d)
+        return POINT_ITEMS + "\n".join(items) + "\n#[nutype(\n    %s\n)]\npub struct Nt(Point);\n" % attrs
     items, attrs = render_attrs(d)
     gen = d.get("gen_decl", "")
     src = "\n".join(items) + "\n"
